@@ -129,6 +129,48 @@ def member(r, w):
     return s.check() == z3.sat
 
 
+def literal_alternatives(pat):
+    """['a', 'b', ..] when the pattern is `^(lit)` or `^((a|b|c))` over plain literals (possibly with escapes), else None."""
+    m = re.match(r'^\^\((.*)\)$', pat, re.S)
+    if not m:
+        return None
+    body = m.group(1)
+    if body.startswith('(') and body.endswith(')'):
+        body = body[1:-1]
+    alts, cur, k = [], '', 0
+    while k < len(body):
+        c = body[k]
+        if c == '\\' and k + 1 < len(body):
+            cur += body[k + 1]; k += 2; continue
+        if c == '|':
+            alts.append(cur); cur = ''; k += 1; continue
+        if c in '()[]*+?.{}^$':
+            return None
+        cur += c; k += 1
+    alts.append(cur)
+    return alts
+
+
+def leftmost_first_winner(pats, word):
+    """Index of the pattern that wins on input `word` followed by a non-identifier character, under the generated lexer's rule:
+    each pattern's match is its leftmost-first match (for an alternation of literals: the FIRST alternative that is a prefix),
+    the longest match wins, ties go to the higher index.  Only literal-alternation patterns and the three identifier-ish class
+    patterns are considered (others cannot match an identifier-shaped word)."""
+    best, blen = None, -1
+    for k, (p, skip) in enumerate(pats):
+        alts = literal_alternatives(p)
+        if alts is not None:
+            ln = next((len(a) for a in alts if word.startswith(a)), -1)
+        elif re.match(r'^\^\(\[A-Z_a-z\]\[0-9A-Z_a-z\]\*\)$', p):
+            mm = re.match(r'[A-Za-z_][A-Za-z0-9_]*', word)
+            ln = len(mm.group(0)) if mm else -1
+        else:
+            continue
+        if ln >= blen and ln > 0:
+            best, blen = k, ln
+    return best, blen
+
+
 def obligations(path):
     """-> list of (name, status 'holds'|'violated'|'inconclusive', witness, seconds)"""
     pats = patterns(path)
@@ -153,6 +195,15 @@ def obligations(path):
     r1 = s.check()
     out.append(('no AIDL keyword or reserved Java/C++ word wins as IDENT (whole-token, priority order of the generated table)',
                 'holds' if r1 == z3.unsat else 'violated' if r1 == z3.sat else 'inconclusive', str(s.model()[w]).strip('"') if r1 == z3.sat else None, time.time() - t0))
+    # leftmost-first refinement: inside ONE pattern the regex crate takes the first alternative that matches, so `(in|inout|out)`
+    # would lex `inout` as `in` + identifier although `inout` is in the pattern's language.  Finite computation per reference word.
+    lost = []
+    for kw in words:
+        k, ln = leftmost_first_winner(pats, kw)
+        if k is None or k == ID or ln != len(kw):
+            lost.append(kw)
+    out.append(('every keyword / reserved word is matched in full by a non-IDENT pattern under leftmost-first alternative order (%d words)' % len(words),
+                'holds' if not lost else 'violated', lost[0] if lost else None, 0.0))
     t0 = time.time()
     s = z3.Solver()
     s.set('timeout', 120000)
